@@ -10,8 +10,8 @@ Writes /verif/seeded/<name>/{patch.diff,demo.rs,meta.json} when 1-4 hold.
 """
 import json, os, re, shutil, subprocess, sys, time, xml.etree.ElementTree as ET
 
-WT = "/tmp/seedchk"
-TGT = "/tmp/seedchk-target"
+WT = "/tmp/seedchk" + os.environ.get("SEEDCHK_ID", "")
+TGT = WT + "-target"
 CRATE_DIRS = {"dicom-core": "core", "dicom-dictionary-std": "dictionary-std", "dicom-encoding": "encoding",
               "dicom-transfer-syntax-registry": "transfer-syntax-registry", "dicom-ul": "ul", "dicom-parser": "parser",
               "dicom-object": "object", "dicom-json": "json", "dicom-dump": "dump", "dicom-pixeldata": "pixeldata",
